@@ -187,6 +187,9 @@ pub open spec fn wf_parts(sl: Map<SliceIndex, ReconstructedSlice>, sh: Map<Slice
     &&& forall|k: SliceIndex, i: int| sh.contains_key(k) && 0 <= i < TOTAL_SHREDS && (#[trigger] row_at(sh, k, i)) is Some ==>
             (row_at(sh, k, i)->0).spec_payload().header.slice_index == k
             && cc.contains_key(k) && cc[k] == ((row_at(sh, k, i)->0).spec_commitment(), (row_at(sh, k, i)->0).spec_sig())
+    // W9: a slice with a row of stored shreds has a cached commitment (the cache is the larger record: it also remembers slices
+    //     whose only shreds were dropped - finding F35)
+    &&& forall|k: SliceIndex| #[trigger] sh.contains_key(k) ==> cc.contains_key(k)
 }
 
 impl BlockData {
@@ -888,7 +891,7 @@ ensures
                 && old(self).cc()[shred.spec_payload().header.slice_index] != shred.spec_commitment())
             || (old(self).last_slice matches Some(l) && !BlockData::last_consistent(l, shred.spec_payload().header.slice_index, shred.spec_payload().header.is_last))
             || (old(self).last_slice is None && shred.spec_payload().header.is_last
-                && (exists|k: SliceIndex| old(self).shreds@.contains_key(k) && k.0 > shred.spec_payload().header.slice_index.0)),
+                && (exists|k: SliceIndex| old(self).cc().contains_key(k) && k.0 > shred.spec_payload().header.slice_index.0)),
         // [C13.contradictory_last_slice_markers_are_equivocation]
         (!(old(self).cc().contains_key(shred.spec_payload().header.slice_index)
             && old(self).cc()[shred.spec_payload().header.slice_index] != shred.spec_commitment())
@@ -900,6 +903,14 @@ ensures
             && old(self).cc()[shred.spec_payload().header.slice_index] != shred.spec_commitment())
           && old(self).last_slice is None && shred.spec_payload().header.is_last
           && (exists|k: SliceIndex| old(self).shreds@.contains_key(k) && k.0 > shred.spec_payload().header.slice_index.0))
+            ==> r == Err::<Option<BlockstoreEvent>, AddShredError>(AddShredError::Equivocation),
+        // [C13.last_marker_below_a_seen_slice_is_equivocation C12.last_marker_below_a_seen_slice_is_equivocation] (finding F35) ... and the
+        // evidence is every slice a VERIFIED shred was seen of - the commitment cache -, stored or not: a shred of the later slice that
+        // was dropped for its (unauthenticated) data/coding tag still proves the leader signed that slice
+        (!(old(self).cc().contains_key(shred.spec_payload().header.slice_index)
+            && old(self).cc()[shred.spec_payload().header.slice_index] != shred.spec_commitment())
+          && old(self).last_slice is None && shred.spec_payload().header.is_last
+          && (exists|k: SliceIndex| old(self).cc().contains_key(k) && k.0 > shred.spec_payload().header.slice_index.0))
             ==> r == Err::<Option<BlockstoreEvent>, AddShredError>(AddShredError::Equivocation),
         // [C13.first_shred_announced_exactly_once]
         r matches Ok(Some(BlockstoreEvent::FirstShred(sl))) ==> sl == old(self).slot && (forall|k: SliceIndex| !old(self).shreds@.contains_key(k)),
@@ -934,6 +945,10 @@ before `match self.last_slice {`
         let ghost a = *self;
         proof {
             assert(a.cc().contains_key(slice_index) && a.cc()[slice_index] == shred.spec_commitment());
+            // the slices a verified shred was seen of, beyond this one: the same before and after this shred entered the cache
+            assert forall|k: SliceIndex| k != slice_index && #[trigger] pre.cc().contains_key(k) implies a.commitment_cache@.contains_key(k) by {}
+            assert forall|k: SliceIndex| k != slice_index && #[trigger] a.commitment_cache@.contains_key(k) implies pre.cc().contains_key(k) by {}
+            assert forall|k: SliceIndex| #[trigger] pre.shreds@.contains_key(k) implies pre.cc().contains_key(k) by { assert(pre.commitment_cache@.contains_key(k)); }
             assert forall|k: SliceIndex, i: int| a.shreds@.contains_key(k) && 0 <= i < TOTAL_SHREDS && (#[trigger] row_at(a.shreds@, k, i)) is Some implies
                 (row_at(a.shreds@, k, i)->0).spec_payload().header.slice_index == k
                 && a.commitment_cache@.contains_key(k) && a.commitment_cache@[k] == ((row_at(a.shreds@, k, i)->0).spec_commitment(), (row_at(a.shreds@, k, i)->0).spec_sig()) by {
